@@ -557,6 +557,30 @@ def glob_semantics_disagreements(gv, gm):
     return bad, n
 
 
+def regex_semantics_disagreements(ri, rm):
+    """the same for /regex/ matchers: unanchored search, on patterns made only of literals, `.`, `*`,
+    `+`, `^`, `$`, `|` and simple classes (where Python's re and the documented syntax coincide)"""
+    import re as _re
+    bad, n = [], 0
+    safe = set("abcdefghijklmnopqrstuvwxyzABCDEFGHIJKLMNOPQRSTUVWXYZ0123456789_ .*+^$[]|-")
+    cache = {}
+    for (rx, inp), v in rm.items():
+        if rx not in cache:
+            ok = rx != "" and set(rx) <= safe and ri.get(rx) == ("ok",) and "[^" not in rx and "[]" not in rx
+            try:
+                cache[rx] = _re.compile(rx) if ok else None
+            except _re.error:
+                cache[rx] = None
+        c = cache[rx]
+        if c is None or any(not (32 <= ord(ch) < 127) for ch in inp):
+            continue
+        n += 1
+        want = c.search(inp) is not None
+        if want != bool(v):
+            bad.append(dict(regex=rx, input=inp, impl=bool(v), documented=want))
+    return bad, n
+
+
 # ------------------------------------------------------------------ model side
 
 PARSE_IMPORTS = ["Base.Str", "Model.FiltersetAst", "Model.FiltersetParse"]
